@@ -10,7 +10,8 @@ taken when an object is created and again at the end, so a change made by ANY ca
 
 Abstract call description (exactly the record the TLA+ module Session.tla uses):
   {ex: "A"|"B"|"C", typ: "spot"|"fut", lev: "l1"|"l2"|"l5", mode: "cross"|"iso", fee: "f0"|"f1"|"f2",
-   bal: "b0"|"b1", warm: "w0"|"w1"|"w2", rt: "r0"|"r1"|"r2", sim: "step"|"fast", out: <outcome>}
+   bal: "b0"|"b1", warm: "w0"|"w1"|"w2", rt: "r0"|"r1"|"r2", sim: "step"|"fast",
+   hp: "none"|"full"|"part" (hyperparameters=None / every declared name / a strict subset), out: <outcome>}
 outcomes (where the call ends):
   ok          returns normally
   cfgerr      config dict without 'fee'                   -> KeyError in _format_config (nothing installed yet)
@@ -46,7 +47,12 @@ ROUTES = {                                                       # (trading (sym
 }
 OUTCOMES = ('ok', 'cfgerr', 'routes', 'spacing', 'warmup', 'init', 'first', 'idle', 'reject', 'open', 'closed',
             'terminate')
-DIMS = ('ex', 'typ', 'lev', 'mode', 'fee', 'bal', 'warm', 'rt', 'sim')
+DIMS = ('ex', 'typ', 'lev', 'mode', 'fee', 'bal', 'warm', 'rt', 'sim', 'hp')
+# the hyperparameters argument; the strategies declare three names, the probe's with other defaults than the
+# earlier sessions' (a default written into a shared dict by one session would be used by the next)
+HP = {'none': None, 'full': {'every': 9, 'tp': 3, 'hold': 4}, 'part': {'every': 9}}
+HP_DEFAULTS_PROBE = {'every': 9, 'tp': 3, 'hold': 4}
+HP_DEFAULTS_EARLIER = {'every': 9, 'tp': 2, 'hold': 6}
 
 
 class Boom(Exception):
@@ -69,12 +75,13 @@ def walk(n, seed, start=100, ts0=T0, spacing=MIN):
     return c
 
 
-def make_strategy(plan, obs=None):
+def make_strategy(plan, obs=None, defaults=None):
     """One deterministic strategy for history calls and probes.  plan: dict(out=<outcome>, oversize=bool).
     obs (probe only): dict filled with what the strategy can see through its public properties."""
     from jesse.strategies import Strategy
     import jesse.helpers as jh
     out = plan.get('out', 'ok')
+    defaults = dict(defaults or (HP_DEFAULTS_PROBE if obs is not None else HP_DEFAULTS_EARLIER))
 
     class C11Strategy(Strategy):
         def __init__(self):
@@ -85,7 +92,13 @@ def make_strategy(plan, obs=None):
             self._opened_index = None
 
         def hyperparameters(self):
-            return [{'name': 'every', 'type': int, 'min': 5, 'max': 20, 'default': 9}]
+            return [{'name': 'every', 'type': int, 'min': 5, 'max': 20, 'default': defaults['every']},
+                    {'name': 'tp', 'type': int, 'min': 1, 'max': 6, 'default': defaults['tp']},
+                    {'name': 'hold', 'type': int, 'min': 2, 'max': 9, 'default': defaults['hold']}]
+
+        def _hp(self, name):
+            # a name the caller did not pass falls back to the declared default
+            return (self.hp or {}).get(name, defaults[name])
 
         # ---- what the running simulation effectively reads
         def _window(self):
@@ -110,7 +123,7 @@ def make_strategy(plan, obs=None):
                         visible=len(self.candles), slice_len=len(w),
                         shared=sorted((str(k), str(v)) for k, v in self.shared_vars.items()),
                         routes=[[x['exchange'], x['symbol'], x['timeframe']] for x in router.all_formatted_routes],
-                        debug=bool(jh.is_debugging()), hp=sorted((k, v) for k, v in (self.hp or {}).items()),
+                        debug=bool(jh.is_debugging()), hp=[(k, self._hp(k)) for k in ('every', 'tp', 'hold')],
                         first_index=self.index, first_time=int(self.time - T0) // MIN)
             self.shared_vars['sessions_seen'] = self.shared_vars.get('sessions_seen', 0) + (1 if self.index == 0 else 0)
 
@@ -122,10 +135,10 @@ def make_strategy(plan, obs=None):
         def should_long(self):
             if out == 'idle' and self.index >= 2:
                 raise Boom('idle')
-            return self.index % self.hp['every'] == 2 and (self._signal() > 0 or self.is_spot_trading)
+            return self.index % self._hp('every') == 2 and (self._signal() > 0 or self.is_spot_trading)
 
         def should_short(self):
-            return (not self.is_spot_trading) and self.index % self.hp['every'] == 2 and self._signal() < 0
+            return (not self.is_spot_trading) and self.index % self._hp('every') == 2 and self._signal() < 0
 
         def _qty(self):
             # 40 % of what the account can carry with its leverage; 6x that for the rejection outcome
@@ -145,11 +158,11 @@ def make_strategy(plan, obs=None):
             if out == 'open':
                 raise Boom('open')
             self._opened_index = self.index
-            d = 3 if self.is_long else -3
+            d = self._hp('tp') if self.is_long else -self._hp('tp')
             self.take_profit = abs(self.position.qty), self.position.entry_price + d
 
         def update_position(self):
-            if self._opened_index is not None and self.index - self._opened_index >= 4:
+            if self._opened_index is not None and self.index - self._opened_index >= self._hp('hold'):
                 self.take_profit = abs(self.position.qty), self.price
 
         def on_close_position(self, order):
@@ -169,27 +182,36 @@ def make_strategy(plan, obs=None):
 class ArgPool:
     """The argument objects of one process.  A researcher who calls research.backtest several times re-uses
     what does not change: calls with the same exchange name, routes and warm-up get THE SAME candles dict,
-    warm-up dict and data_routes list (config, routes and hyperparameters are built per call).  The fingerprint of
+    warm-up dict and data_routes list, calls with equal config values the same config dict, calls passing the same
+    kind of hyperparameters the same dict, earlier calls with the same plan the same routes list and strategy class
+    (the probe's routes carry its own observing strategy class).  The fingerprint of
     every object is taken when it is created - a later change by whatever call is a change of an argument."""
 
     def __init__(self, seed):
         self.seed = seed
         self.objs = {}
         self.created = {}
+        self.classes = set()          # ids of the strategy classes handed to jesse
 
     def get(self, key, make):
         if key not in self.objs:
             self.objs[key] = make()
-            self.created[key] = fingerprint(self.objs[key])
+            self.created[key] = fingerprint(self.objs[key], self)
         return self.objs[key], self.created[key]
 
 
-def concrete(a, pool, strategy_cls=None, obs=None, hp=None):
+def concrete(a, pool, strategy_cls=None, obs=None):
     """abstract call record -> (keyword arguments of research.backtest, fingerprints of the argument objects at
     their creation)"""
     out = a.get('out', 'ok')
     ex = EXN[a['ex']]
-    cls = strategy_cls or make_strategy({'out': out}, obs)
+    if strategy_cls is not None:
+        cls = strategy_cls
+    elif obs is not None:
+        cls = make_strategy({'out': out}, obs)
+    else:
+        cls, _ = pool.get(('cls', out), lambda: make_strategy({'out': out}))
+    pool.classes.add(id(cls))
     config = {'starting_balance': BAL[a['bal']], 'fee': FEE[a['fee']], 'type': 'futures' if a['typ'] == 'fut' else 'spot',
               'futures_leverage': LEV[a['lev']], 'futures_leverage_mode': MODE[a['mode']], 'exchange': ex,
               'warm_up_candles': WARM[a['warm']][0]}
@@ -226,15 +248,17 @@ def concrete(a, pool, strategy_cls=None, obs=None, hp=None):
     kw['data_routes'], created['data_routes'] = pool.get(
         ('data', ex, a['rt']), lambda: [{'exchange': ex, 'symbol': s, 'timeframe': tf} for s, tf in data])
     n = len(pool.objs)
-    kw['config'], created['config'] = pool.get(('config', n), lambda: config)
-    kw['routes'], created['routes'] = pool.get(('routes', n), lambda: routes)
-    kw['hyperparameters'], created['hyperparameters'] = pool.get(('hp', n), lambda: dict(hp or {'every': 9}))
+    kw['config'], created['config'] = pool.get(('config', repr(sorted(config.items()))), lambda: config)
+    kw['routes'], created['routes'] = pool.get(('routes', n) if obs is not None or strategy_cls is not None
+                                               else ('routes', ex, a['rt'], out), lambda: routes)
+    kw['hyperparameters'], created['hyperparameters'] = pool.get(
+        ('hp', a.get('hp', 'full')), lambda: None if HP[a.get('hp', 'full')] is None else dict(HP[a.get('hp', 'full')]))
     kw['fast_mode'] = (a['sim'] == 'fast')
     return kw, created
 
 
 # ---------------------------------------------------------------- fingerprints (deep equality of arguments)
-def fingerprint(x):
+def fingerprint(x, pool=None):
     h = hashlib.sha1()
 
     def feed(v):
@@ -252,7 +276,15 @@ def fingerprint(x):
                 feed(i)
             h.update(b']')
         elif isinstance(v, type):
+            # a class: its name, whether it is one of the class objects the harness handed over (identity),
+            # the names of its attributes and the values of the plain-data ones
             h.update(b'cls' + v.__qualname__.encode())
+            h.update(b'known' if pool is None or id(v) in pool.classes else b'replaced')
+            for k in sorted(vars(v)):
+                a = vars(v)[k]
+                h.update(k.encode())
+                if not callable(a) and not isinstance(a, (staticmethod, classmethod, property)) and not k.startswith('_'):
+                    h.update(repr(a).encode())
         else:
             h.update(type(v).__name__.encode() + b':' + repr(v).encode())
     feed(x)
@@ -262,8 +294,8 @@ def fingerprint(x):
 ARG_NAMES = ('config', 'routes', 'data_routes', 'candles', 'warmup_candles', 'hyperparameters')
 
 
-def fingerprints(kw):
-    return {k: fingerprint(kw[k]) for k in ARG_NAMES}
+def fingerprints(kw, pool=None):
+    return {k: fingerprint(kw[k], pool) for k in ARG_NAMES}
 
 
 # ---------------------------------------------------------------- running calls
@@ -276,7 +308,7 @@ def call(kw):
 def run_history_call(a, pool):
     """an earlier session: plain research.backtest, nothing instrumented.  Returns (exception class or 'none',
     keyword arguments, fingerprints at creation)."""
-    kw, created = concrete(a, pool, hp={'every': 9, 'tag': 7})     # an extra hyperparameter the probe does not pass
+    kw, created = concrete(a, pool)
     try:
         call(kw)
         return 'none', kw, created
@@ -359,7 +391,7 @@ def run_probe(a, pool):
     finally:
         bm._generate_outputs = orig
     rec['args_before'] = before
-    rec['args_after'] = fingerprints(kw)
+    rec['args_after'] = fingerprints(kw, pool)
     rec['obs'] = obs
     rec['final'] = final
     return rec
@@ -381,7 +413,7 @@ def run_item(item):
     rec['hist_exc'] = excs
     # the arguments of the earlier calls, looked at again now that everything has run
     rec['hist_args_before'] = ['%d:%s=%s' % (i, k, c[k]) for i, (kw, c) in enumerate(calls) for k in ARG_NAMES]
-    rec['hist_args_after'] = ['%d:%s=%s' % (i, k, fingerprint(kw[k])) for i, (kw, c) in enumerate(calls) for k in ARG_NAMES]
+    rec['hist_args_after'] = ['%d:%s=%s' % (i, k, fingerprint(kw[k], pool)) for i, (kw, c) in enumerate(calls) for k in ARG_NAMES]
     return rec
 
 
